@@ -46,6 +46,8 @@ pub struct Sweep<'a> {
 pub fn all_byte_universes<F: Fam>(ctx: &Ctx, light: &(dyn Fn(&[u8]) + Sync), heavy: &(dyn Fn(&[u8]) + Sync), with_suffixes: bool) {
     let fam = F::FAMILY;
     let (nb, full_r, b16a, b16b) = sweeps::tier_params(ctx);
+    // all strings of 4 bytes only where the property is about arbitrary strings (C03)
+    let nb = if ctx.prop == "C03" { nb } else { 3 };
     let n = sweeps::u_bytes(nb, light);
     ctx.count(&format!("{}_U_bytes(<={nb})", F::NAME), n);
     let n = sweeps::u_frame(fam, full_r, b16a, b16b, light);
